@@ -29,6 +29,8 @@ Failed(e) ==
   \cup (IF completed /\ ~(e.A2 = e.B2 /\ e.E2 = e.A2 /\ e.tr2) THEN {"C06"} ELSE {})
   \* a leftover staging name (hidden from the projection) is an ordinary file to copia: not a fixpoint then
   \cup (IF e.tr /\ ~e.stg /\ e.A = e.B /\ e.E = e.A /\ ~(e.A2 = e.A /\ e.B2 = e.B /\ e.E2 = e.E /\ e.nplan = 0 /\ e.exit = 0) THEN {"C06"} ELSE {})
+  \* the same start state run with the roots named in the other order ends in the same trees (altA2 = A2 when not re-run)
+  \cup (IF e.altA2 # e.A2 \/ e.altB2 # e.B2 THEN {"C06"} ELSE {})
   \cup (IF ~e.tr /\ ~(\A i \in 1..N(e) : (e.A[i] # 0 => e.A2[i] # 0) /\ (e.B[i] # 0 => e.B2[i] # 0)) THEN {"C07"} ELSE {})
   \cup (IF ~e.tr /\ completed /\ ~(\A i \in 1..N(e) : (e.A[i] # 0 => SurvivesIn(e, e.A2, i, e.A[i]) /\ SurvivesIn(e, e.B2, i, e.A[i]))
                                                       /\ (e.B[i] # 0 => SurvivesIn(e, e.A2, i, e.B[i]) /\ SurvivesIn(e, e.B2, i, e.B[i]))) THEN {"C07"} ELSE {})
